@@ -21,6 +21,8 @@ mod child;
 mod error;
 mod frame;
 mod parent;
+#[cfg(feature = "verif-hooks")]
+pub mod verif;
 
 pub use alloc::Alloc;
 pub use child::become_child;
